@@ -10,6 +10,7 @@ import (
 	"runtime"
 	"runtime/debug"
 	"strings"
+	"sync"
 
 	"github.com/itchio/headway/state"
 	"github.com/itchio/lake"
@@ -17,6 +18,7 @@ import (
 	"github.com/itchio/lake/tlc"
 	"github.com/itchio/savior"
 	"github.com/itchio/savior/seeksource"
+	"github.com/itchio/wharf/bsdiff"
 	"github.com/itchio/wharf/pwr"
 	"github.com/itchio/wharf/pwr/bowl"
 	"github.com/itchio/wharf/pwr/patcher"
@@ -73,6 +75,13 @@ type DiffSeams struct {
 	// the entries below them (seed != 0)
 	ZipLikeContainers uint64
 	Twice             bool // WritePatch is called a second time on the same DiffContext (another destination); the result reported is the second one's
+	// CancelFirstAtRead > 0: a first WritePatch on the same DiffContext (own pool, own destinations)
+	// is cancelled at that read of its source pool; the reported result is the retry's. Whatever the
+	// first attempt left running keeps being scheduled while the retry runs.
+	CancelFirstAtRead int
+	// ReleaseFirstAtRead: the source read during which the first attempt was cancelled stays in
+	// flight until the retry's pool gets its n-th read (or until the retry is over)
+	ReleaseFirstAtRead int
 }
 
 // DiffResult is what a diff run produced.
@@ -82,7 +91,9 @@ type DiffResult struct {
 	Err           error
 	Panic         string
 	SourcePool    *Pool
-	SecondDiffers bool // Twice: the second WritePatch wrote other patch bytes than the first
+	SecondDiffers bool  // Twice: the second WritePatch wrote other patch bytes than the first
+	FirstErr      error // CancelFirstAtRead: what the cancelled attempt returned
+	FirstRan      bool
 }
 
 // Recover runs f and converts a panic into a string (value + stack).
@@ -144,9 +155,61 @@ func Diff(oldDir, newDir string, comp *pwr.CompressionSettings, seams DiffSeams)
 		TargetContainer: targetContainer,
 		TargetSignature: targetSig,
 	}
+	var gate chan struct{}
+	var gateOnce sync.Once
+	openGate := func() {
+		if gate != nil {
+			gateOnce.Do(func() { close(gate) })
+		}
+	}
+	if seams.CancelFirstAtRead > 0 {
+		ctx0, cancel := context.WithCancel(ctx)
+		var mu sync.Mutex
+		reads := 0
+		if seams.ReleaseFirstAtRead > 0 {
+			gate = make(chan struct{})
+			retryReads := 0
+			sp.OnRead = func(ReadEvent) {
+				mu.Lock()
+				retryReads++
+				hit := retryReads == seams.ReleaseFirstAtRead
+				mu.Unlock()
+				if hit {
+					openGate()
+				}
+			}
+		}
+		sp0 := &Pool{Inner: fspool.New(sourceContainer, newDir), Name: "srcpool0", Yield: seams.Yield}
+		sp0.AfterRead = func(ReadEvent) {
+			mu.Lock()
+			reads++
+			hit := reads == seams.CancelFirstAtRead
+			mu.Unlock()
+			if hit {
+				cancel()
+				if gate != nil {
+					<-gate // the response is on its way...
+					if seams.Yield != nil {
+						seams.Yield("srcpool0.LateResponse")
+					}
+				}
+			}
+		}
+		dctx.Pool = sp0
+		res.Panic = Recover(func() {
+			res.FirstErr = dctx.WritePatch(ctx0, &Writer{Name: "patch0", Yield: seams.Yield}, &Writer{Name: "sig0", Yield: seams.Yield})
+		})
+		cancel()
+		res.FirstRan = true
+		dctx.Pool = sp
+		if res.Panic != "" {
+			return res
+		}
+	}
 	res.Panic = Recover(func() {
 		res.Err = dctx.WritePatch(ctx, pw, sw)
 	})
+	openGate()
 	if seams.Twice && res.Err == nil && res.Panic == "" {
 		first := pw.Bytes()
 		pw = &Writer{Name: "patch", Yield: seams.Yield}
@@ -323,6 +386,8 @@ type OptimizeKnobs struct {
 	ForceMapAll bool
 	SizeLimit   int64
 	Compression *pwr.CompressionSettings
+	// WithStats hands the optimizer a bsdiff.DiffStats to fill in (optional in rediff.Params)
+	WithStats bool
 }
 
 func GenKnobs(rt *rapid.T) OptimizeKnobs {
@@ -330,6 +395,7 @@ func GenKnobs(rt *rapid.T) OptimizeKnobs {
 		Partitions:  rapid.IntRange(0, 16).Draw(rt, "partitions"),
 		SuffixConc:  rapid.SampledFrom([]int{-1, 0, 1, 2, 3, 4, -2, -runtime.NumCPU() + 1, -runtime.NumCPU(), -runtime.NumCPU() - 1, -1000, 64}).Draw(rt, "suffixconc"),
 		ForceMapAll: rapid.IntRange(0, 3).Draw(rt, "forcemapall") == 0,
+		WithStats:   rapid.Bool().Draw(rt, "withbsdiffstats"),
 	}
 	switch rapid.IntRange(0, 4).Draw(rt, "sizelimit") {
 	case 0:
@@ -356,7 +422,12 @@ func Optimize(patch []byte, oldDir, newDir string, k OptimizeKnobs, slice *Slice
 	res := &OptimizeResult{}
 	res.Panic = Recover(func() {
 		src, _ := NewSource(patch, slice, yield)
+		var stats *bsdiff.DiffStats
+		if k.WithStats {
+			stats = &bsdiff.DiffStats{}
+		}
 		rc, err := rediff.NewContext(rediff.Params{
+			BsdiffStats:           stats,
 			PatchReader:           src,
 			RediffSizeLimit:       k.SizeLimit,
 			SuffixSortConcurrency: k.SuffixConc,
